@@ -121,20 +121,34 @@ TopClass(k, t, off, mand) ==
              IF (KeyIdx[k] + off) % 2 = 0 THEN "std" ELSE "esc"
       [] OTHER -> Free(KeyIdx[k] + off)
 
-ConClass(k, off, tpiobj) ==
+ConClass(k, off, tsh) ==
     IF k = NestedKey
-    THEN (IF tpiobj THEN "obj" ELSE NonObjectClasses[(off % Len(NonObjectClasses)) + 1])
+    THEN (CASE tsh = "nonobj_str" -> "esc" [] tsh = "nonobj_arr" -> "arr" [] tsh = "nonobj_null" -> "null"
+            [] tsh = "nonobj" -> NonObjectClasses[(off % Len(NonObjectClasses)) + 1]      \* by offset: 0, "", false, ...
+            [] tsh = "empty" -> "eobj"
+            [] OTHER -> "obj")
     ELSE Free(KeyIdx[k] + 3 + off)
 
 \* shapes of content.third_party_invite when present
-TpiShapes == {"signed+other", "signed", "other", "empty", "nonobj"}
+\*   empty {}; other1 / other2: an object without `signed` (one / two other keys, one of them `signedx`);
+\*   signed: `signed` only; signed+other; signed_eobj / signed_null: `signed` present with the value {} / null;
+\*   nonobj_str / nonobj_arr / nonobj_null / nonobj (another non-object class by offset): not an object
+TpiShapesMember == {"empty", "other1", "other2", "signed", "signed+other", "signed_eobj", "signed_null",
+                    "nonobj_str", "nonobj_arr", "nonobj_null", "nonobj"}
+\* for the event types to which third_party_invite means nothing, a few shapes are enough
+TpiShapesOther == {"empty", "other1", "signed+other", "nonobj_str"}
+TpiShapes(t) == IF t = "m.room.member" THEN TpiShapesMember ELSE TpiShapesOther
+IsNonObj(sh) == sh \in {"nonobj_str", "nonobj_arr", "nonobj_null", "nonobj"}
 TpiOf(sh, off) ==
     LET ks == CASE sh = "signed+other" -> {"signed", "display_name"}
-                [] sh = "signed" -> {"signed"}
-                [] sh = "other" -> {"display_name", "signedx"}
+                [] sh \in {"signed", "signed_eobj", "signed_null"} -> {"signed"}
+                [] sh = "other1" -> {"display_name"}
+                [] sh = "other2" -> {"display_name", "signedx"}
                 [] OTHER -> {}
-    IN [obj |-> sh # "nonobj",
-        keys |-> [k \in ks |-> IF k = "signed" THEN (IF off % 2 = 0 THEN "std" ELSE Free(off)) ELSE "esc"]]
+        sc == CASE sh = "signed_eobj" -> "eobj" [] sh = "signed_null" -> "null"
+                [] OTHER -> IF off % 2 = 0 THEN "std" ELSE Free(off)
+    IN [obj |-> ~IsNonObj(sh),
+        keys |-> [k \in ks |-> IF k = "signed" THEN sc ELSE "esc"]]
 
 \* --- presence shapes ---------------------------------------------------------------------------
 Pool(t) == ({"t"} \X (IF Family = "raw" THEN TopOptRaw ELSE TopOptPdu)) \cup ({"c"} \X ConCand(t))
@@ -159,13 +173,13 @@ EventOf(v, t, sh, off, tsh) ==
         tp == IF NestedKey \in conk THEN TpiOf(tsh, off) ELSE NoTpi
     IN [type |-> t,
         top |-> [k \in topk |-> IF k = "state_key" /\ v12create THEN "std" ELSE TopClass(k, t, off, mand)],
-        con |-> [k \in conk |-> ConClass(k, off, tp.obj)],
+        con |-> [k \in conk |-> ConClass(k, off, tsh)],
         tpi |-> tp]
 
 Init ==
     /\ \E v \in Versions, t \in Types, off \in FullOffsets \cup LiteOffsets \cup AllOnlyOffsets :
        \E sh \in Shapes(Pool(t), ModeOf(off, v)) \cup ForeignShapes(t, Pool(t), ModeOf(off, v)) :
-       \E tsh \in (IF <<"c", NestedKey>> \in sh THEN TpiShapes ELSE {"none"}) :
+       \E tsh \in (IF <<"c", NestedKey>> \in sh THEN TpiShapes(t) ELSE {"none"}) :
           /\ ver = v
           /\ e = EventOf(v, t, sh, off, tsh)
     /\ r1 = e /\ r2 = e
@@ -204,6 +218,11 @@ PExact ==
             /\ (A = 5 /\ e.type = "m.room.member" /\ e.tpi.obj /\ "signed" \in DOMAIN e.tpi.keys) =>
                    NestedKey \in DOMAIN r1.con
             /\ (A < 5 /\ e.type # "m.room.create") => NestedKey \notin DOMAIN r1.con
+            \* the nested rule, both directions: third_party_invite survives exactly when the algorithm is 5, the event
+            \* an m.room.member and the value an object that has `signed` (no {} is left behind otherwise)
+            /\ ~KeepAllContent(A, e.type) =>
+                   ((NestedKey \in DOMAIN r1.con) =
+                    (A = 5 /\ e.type = "m.room.member" /\ NestedKey \in DOMAIN e.con /\ e.tpi.obj /\ "signed" \in DOMAIN e.tpi.keys))
 PIdempotent == Done => r2 = r1
 PCore ==
     Done => /\ r1.type = e.type
@@ -235,6 +254,5 @@ Emit ==
     Done => PrintT(ToJson([fam |-> Family, ver |-> ver, algo |-> A, type |-> e.type,
                            top |-> e.top, con |-> e.con,
                            tpiobj |-> e.tpi.obj, tpi |-> e.tpi.keys,
-                           ktop |-> DOMAIN r1.top, kcon |-> DOMAIN r1.con, ktpi |-> DOMAIN r1.tpi.keys,
-                           free |-> NestedUnspecified(A, e)]))
+                           ktop |-> DOMAIN r1.top, kcon |-> DOMAIN r1.con, ktpi |-> DOMAIN r1.tpi.keys]))
 =============================================================================
